@@ -38,6 +38,37 @@ Example C19_rib_nonvacuous :
   = [(11, a2); (11, a2); (11, a1)].
 Proof. vm_compute. repeat split. Qed.
 
+(** ** the same over the prefixes AS SENT (length octet + octets whose trailing bits may hold anything,
+    RFC 4271 4.3): the table is keyed by the prefix up to its padding bits *)
+Theorem C19_rib_refines_wire : forall ws : list wupdate,
+  map_eq N.eqb (rib_in (fold_left (recv_wire true) ws new_conn))
+               (fold_left spec_apply (List.map decode_update ws) empty).
+Proof. exact rib_in_refines_wire. Qed.
+Print Assumptions C19_rib_refines_wire.
+
+(** two histories that differ only in padding bits leave the same tables and counters ... *)
+Theorem C19_padding_irrelevant : forall b ws ws', Forall2 same_wupdate ws ws' ->
+  forall s, fold_left (recv_wire b) ws s = fold_left (recv_wire b) ws' s.
+Proof. exact padding_irrelevant. Qed.
+Print Assumptions C19_padding_irrelevant.
+
+(** ... and nothing else is identified: equal keys = same length and same leading bits *)
+Theorem C19_prefix_key_exact : forall w w' : wprefix, snd w <= 32 -> snd w' <= 32 ->
+  (parse_prefix w = parse_prefix w' <-> same_wprefix w w').
+Proof. exact prefix_key_exact. Qed.
+Print Assumptions C19_prefix_key_exact.
+
+Example C19_padding_nonvacuous :
+  let a := mkAttrs 1 None None in
+  let p30 pad := (167838980 + pad, 30) in          (* 10.1.1.4/30, last octet 4 + pad *)
+  let s := fold_left (recv_wire true)
+             [mkWUpdate a [p30 0] []; mkWUpdate a [p30 1] []; mkWUpdate a [p30 3; p30 2] []] new_conn in
+  let t := recv_wire true s (mkWUpdate (mkAttrs 0 None None) [] [p30 2]) in
+  List.map fst (rib_in s) = [pfx 167838980 30] /\ v_ipv4 (recv_v s) = 1 /\
+  rib_in t = [] /\ v_ipv4 (recv_v t) = 2 /\
+  parse_prefix (167838976 + 8, 30) <> parse_prefix (p30 0).
+Proof. vm_compute. repeat split. discriminate. Qed.
+
 (** Adj-RIB-Out through the REST send path *)
 Theorem C19_rib_out_refines : forall us : list update,
   map_eq N.eqb (rib_out (fold_left send_step us new_conn)) (fold_left spec_apply us empty).
@@ -200,6 +231,24 @@ Example C19_replace_in_one_update_nonvacuous :
   List.map fst (vpn_recv s3) = [rA] /\
   v_flowspec (send_v t1) = 3 /\ List.map fst (fs_send t1) = [rB] /\ v_ipv4 (send_v t1) = 1.
 Proof. vm_compute. repeat split. Qed.
+
+(** "never otherwise": an identical re-announcement (same prefixes, same attributes, no withdrawals)
+    leaves the IPv4 table and counter as they are -- in either direction, from any state.  (The
+    attribute value is what the caller hands over: for the REST view on an iBGP session that is the
+    request WITH the default LOCAL_PREF; the harness checks the view against that.) *)
+Theorem C19_reannouncement_changes_nothing_received : forall s u, u_withdraw u = [] ->
+  let s1 := recv_step true s u in
+  rib_in (recv_step true s1 u) = rib_in s1 /\
+  v_ipv4 (recv_v (recv_step true s1 u)) = v_ipv4 (recv_v s1).
+Proof. exact recv_reannounce_noop. Qed.
+Print Assumptions C19_reannouncement_changes_nothing_received.
+
+Theorem C19_reannouncement_changes_nothing_sent : forall s u, u_withdraw u = [] ->
+  let s1 := send_step s u in
+  rib_out (send_step s1 u) = rib_out s1 /\
+  v_ipv4 (send_v (send_step s1 u)) = v_ipv4 (send_v s1).
+Proof. exact send_reannounce_noop. Qed.
+Print Assumptions C19_reannouncement_changes_nothing_sent.
 
 (** "never otherwise": a received UPDATE moves nothing on the send side and vice versa *)
 Theorem C19_directions_independent : forall b s u,
